@@ -44,7 +44,11 @@ Definition sitem_ok (s : svstate) (it : sitem) : Prop :=
   | VConnect sid => ¬ ev_in (SvConnect sid) s            (* session ids are fresh *)
   | VConnEnd sid => ev_in (SvConnect sid) s ∧ ¬ ev_in (SvConnEnd sid) s     (* a connection ends once *)
   | VSignal => ¬ ev_in SvSignal s
-  | VCancel _ cause => cause = ESrvLockWaitTimeout ∨ cause = ECtxCanceled
+  | VCancel tid cause =>
+      (* the caller goes away at any time; the wait timeout (lockCtx of LockServer.Lock) is consulted only inside
+         lockMgr.Lock — once that call has returned, the deadline has no effect in the code *)
+      cause = ECtxCanceled ∨
+      (cause = ESrvLockWaitTimeout ∧ ∃ t, v_thr s !! tid = Some t ∧ (st_pc t = VMgrLock ∨ st_pc t = VWait ∨ st_pc t = VWoken))
   | VTick _ | VRun _ => True
   end.
 
@@ -57,12 +61,21 @@ Definition entry_of (s : svstate) (sid : str) (c : clock) : Prop := ∃ l, v_ses
 Definition armed_at (s : svstate) (tk : str) (id : nat) (tm : stimer) (d : Z) : Prop :=
   v_timers s !! tk = Some id ∧ v_theap s !! id = Some tm ∧ tm_st tm = TArmed d.
 
+(** the expiry of hold (n,k) is in progress: its callback goroutine exists and its very next step releases the hold *)
+Definition expiry_pending (s : svstate) (n k : str) : Prop :=
+  ∃ tid t id tm, v_thr s !! tid = Some t ∧ st_op t = SExpire id ∧ st_pc t = VCbUnlock ∧ v_theap s !! id = Some tm ∧ tm_n tm = n ∧ tm_k tm = k.
+(** the holds a DestroySession call still has to release *)
+Definition ds_pending (pc : spc) (c : clock) : Prop :=
+  match pc with VDsTmRemove todo => c ∈ todo | VDsUnlock c' todo => c = c' ∨ c ∈ todo | _ => False end.
+
 Record SvInv (cfg : svcfg) (s : svstate) : Prop := {
   vi_not_crashed : v_crashed s = false;
   (* --- the counting lock --- *)
   vi_cap : ∀ n a, v_locks s !! n = Some a → 0 < al_size a ∧ Z.of_nat (length (al_live a)) ≤ al_size a ∧ NoDup (al_live a) ∧ NoDup (al_q a);
   vi_no_lost_wakeup : ∀ n a, v_locks s !! n = Some a → al_q a ≠ [] → Z.of_nat (length (al_live a)) = al_size a;
   vi_queue : ∀ n a tid, v_locks s !! n = Some a → (tid ∈ al_q a ↔ ∃ t sid k z lt, v_thr s !! tid = Some t ∧ st_op t = SLock sid n k z lt ∧ st_pc t = VWait);
+  (* a parked call is parked on an existing lock object *)
+  vi_wait_lock : ∀ tid t sid n k z lt, v_thr s !! tid = Some t → st_op t = SLock sid n k z lt → st_pc t = VWait → is_Some (v_locks s !! n);
   (* every live key is the key of exactly one acquisition call, which is past its grant *)
   vi_live_owner : ∀ n k, slive s n k → ∃ tid t sid z, v_thr s !! tid = Some t ∧ acquirer t sid n k z ∧
       (st_pc t = VWoken ∨ st_pc t = VSessAdd ∨ st_pc t = VTmAdd ∨ st_pc t = VFin (SResp true None));
@@ -96,6 +109,44 @@ Record SvInv (cfg : svcfg) (s : svstate) : Prop := {
   (* the state file is the session table (rewritten at every change; empty sessions are written only with the next change) *)
   vi_file : sc_file cfg = true → ∀ sid c, (∃ m l, v_file s = Some m ∧ m !! sid = Some l ∧ c ∈ l) ↔ entry_of s sid c;
   vi_nofile : sc_file cfg = false → v_file s = None;
+  (* --- auxiliary invariants (C05) --- *)
+  (* a lease callback belongs to a timer that exists; a call arms a lease only for a positive lock timeout *)
+  vi_expire_heap : ∀ tid t id, v_thr s !! tid = Some t → st_op t = SExpire id → is_Some (v_theap s !! id);
+  vi_tmadd_pos : ∀ tid t sid n k z lt, v_thr s !! tid = Some t → st_op t = STry sid n k z lt ∨ st_op t = SLock sid n k z lt →
+      st_pc t = VTmAdd → lt_pos lt = true;
+  vi_renew_pos : ∀ tid t n k lt, v_thr s !! tid = Some t → st_op t = SRenew n k lt → 0 < lt;
+  (* a wait timeout is only ever recorded for a Lock call that then fails *)
+  vi_cancel_pc : ∀ tid t e, v_thr s !! tid = Some t → st_cancel t = Some e → e ≠ ECtxCanceled →
+      st_pc t = VMgrLock ∨ st_pc t = VWait ∨ st_pc t = VWoken ∨ ∃ o, st_pc t = VFin (SResp false o);
+  (* the calls of a session that were in flight when its connection ended have a cancelled context *)
+  vi_ended_cancel : ∀ tid t sid, v_thr s !! tid = Some t → op_sid (st_op t) = Some sid → ev_in (SvConnEnd sid) s →
+      is_fin (st_pc t) = false → st_cancel t ≠ None;
+  (* a granted hold stays live until its bookkeeping is done; only a session end can release it before the lease is armed *)
+  vi_granted_live : ∀ tid t sid n k z, v_thr s !! tid = Some t → acquirer t sid n k z → st_pc t = VWoken ∨ st_pc t = VSessAdd → slive s n k;
+  vi_tmadd_live : ∀ tid t sid n k z, v_thr s !! tid = Some t → acquirer t sid n k z → st_pc t = VTmAdd →
+      slive s n k ∨ st_cancel t = Some ECtxCanceled;
+  (* DestroySession: it runs for an ended connection; the holds it still has to release were listed in its session (their
+     entries are gone, their acquiring calls are past AddLock); between its timer removal and its unlock no lease of the
+     hold is armed, unless by the cancelled acquiring call itself *)
+  vi_ds_ended : ∀ tid t sid, v_thr s !! tid = Some t → st_op t = SConnEnd sid →
+      (ev_in (SvConnEnd sid) s ∨ v_shut s = true) ∧ (st_pc t = VDsFlag ∨ st_pc t = VEnd ∨ ev_in (SvConnEnd sid) s);
+  vi_ds_todo : ∀ tid t sid c, v_thr s !! tid = Some t → st_op t = SConnEnd sid →
+      ds_pending (st_pc t) c →
+      (∃ tid' t', v_thr s !! tid' = Some t' ∧ acquirer t' sid (cl_name c) (cl_key c) (cl_size c) ∧ (st_pc t' = VTmAdd ∨ ∃ r, st_pc t' = VFin r)) ∧
+      (∀ sid' c', entry_of s sid' c' → cl_key c' ≠ cl_key c);
+  vi_ds_unlock : ∀ tid t sid c rest id tm d, v_thr s !! tid = Some t → st_op t = SConnEnd sid → st_pc t = VDsUnlock c rest →
+      armed_at s (tkey (cl_name c) (cl_key c)) id tm d →
+      ∃ tid' t' sid' z, v_thr s !! tid' = Some t' ∧ acquirer t' sid' (cl_name c) (cl_key c) z ∧ st_cancel t' = Some ECtxCanceled;
+  (* Unlock: between its timer removal and its manager call the hold has no lease timer in the map *)
+  vi_unl_notimer : ∀ tid t n k, v_thr s !! tid = Some t → st_op t = SUnlock n k → st_pc t = VMgrUnlock → v_timers s !! tkey n k = None;
+  (* C05: an Unlock about to answer (or having answered) unlocked=true: the hold is gone, or its expiry is in progress *)
+  vi_unlocked : ∀ tid t n k, v_thr s !! tid = Some t → st_op t = SUnlock n k → st_pc t = VSessRemove ∨ st_pc t = VFin (SResp true None) →
+      v_mgrshut s = false → ¬ slive s n k ∨ expiry_pending s n k;
+  (* C05: a lease callback past its unlock step has freed the hold *)
+  vi_expired : ∀ tid t id tm, v_thr s !! tid = Some t → st_op t = SExpire id → v_theap s !! id = Some tm →
+      v_mgrshut s = false → st_pc t = VCbUnlock ∨ ¬ slive s (tm_n tm) (tm_k tm);
+  (* the closer has set the shutdown flag before it stops the network *)
+  vi_sh_flag : ∀ tid t, v_thr s !! tid = Some t → st_op t = SShutdown → st_pc t ≠ VShFlag → v_shut s = true;
   (* --- ids --- *)
   vi_sys : ∀ tid t, v_thr s !! tid = Some t → (tid < v_next s)%nat ∧ (client_op (st_op t) = true ↔ (tid < sys_base)%nat);
   vi_next : (sys_base ≤ v_next s)%nat
@@ -107,8 +158,6 @@ Definition T_svinv_reach : Prop := ∀ cfg s, vreach cfg s → SvInv cfg s.
 
 (** unlocked=true: the capacity is free, or is freed at once by the expiry already in progress — its callback goroutine exists
     and its very next step releases the hold, needing no tick and nobody else *)
-Definition expiry_pending (s : svstate) (n k : str) : Prop :=
-  ∃ tid t id tm, v_thr s !! tid = Some t ∧ st_op t = SExpire id ∧ st_pc t = VCbUnlock ∧ v_theap s !! id = Some tm ∧ tm_n tm = n ∧ tm_k tm = k.
 Definition T_C05_unlock_truth : Prop := ∀ cfg s tid t n k,
   vreach cfg s → v_mgrshut s = false → v_thr s !! tid = Some t → st_op t = SUnlock n k → st_pc t = VFin (SResp true None) →
   ¬ slive s n k ∨ expiry_pending s n k.
